@@ -23,9 +23,17 @@ What is proved here, for all inputs of the stated shape (no size bounds):
   `STEPfile::WriteData` emits is read back to the instances written and writing again gives the same bytes
   (`C01_file_write_read_partial`).
 
-What is *not* proved (tied by correspondence on generated files only, see notes/C01.md): typed selects, aggregates of
-NUMBER / of aggregates / of selects, subtype/supertype records in external mapping, the header section, REAL/NUMBER/
-enumeration/aggregate values on the write side of the file-level round trip.
+* the halves composed: `C01_read_write_read_partial` (read, write, read again: the same instances, the same bytes) for
+  files in the intersection of `Covered` and `Storable`; `C01_file_hypotheses_witness` / `C01_read_write_read_witness`
+  instantiate every hypothesis on a two-record file with a forward reference.
+
+What is *not* proved (tied by correspondence on generated files only, see notes/C01.md): **redeclared attributes**
+(`redefining = false` in every constructor of `Covered` / `Storable`: entities that redeclare an inherited attribute are
+outside every headline theorem), selects whose member is a select or an aggregate, subtype/supertype records in external
+mapping at file level, entities without attributes at file level, the header section, REAL / NUMBER values at which
+`%.15G` does not read back (`RealStable`) and aggregates of aggregates / of selects on the write side, record ids above
+INT_MAX, comments longer than MAX_COMMENT_LENGTH while the source abandons them (regenerated switch
+`commentsOfAnyLength`, fixes/C01-9), print control directives between tokens (`Seps` has blanks and comments only).
 -/
 namespace StepModel.P21.C01
 open StepModel StepModel.P21 StepModel.P21.RLemmas StepModel.P21.Lemmas StepModel.P21.Grammar
@@ -435,8 +443,8 @@ theorem covered_rd {F} (env : Env F) (strict : Bool) (hcfg : env.lex.criSkipsCom
   | number a hty hder hred tok dec v htok hden hv hnn before after hbf ha =>
     exact ⟨sk, Or.inl rfl, attr_number env strict a hty hder hcfg tok dec v htok hden hv hnn l sk after ha d rest hd⟩
 
-/-- **read (render p ℓ) = p for records over the covered kinds** (`_partial`: aggregates of NUMBER, of aggregates and of selects, and
-    selects are *not* covered by this theorem — for them `ParamOK` is a
+/-- **read (render p ℓ) = p for records over the covered kinds** (`_partial`: redeclared attributes, selects whose member is a
+    select or an aggregate and comments inside typed selects are *not* covered by this theorem — for them `ParamOK` is a
     hypothesis of `C01_read_record_of_params`; they are tied by correspondence only).  Every dictionary, every reader
     configuration in which `CheckRemainingInput` and the aggregate element loops skip comments, every layout, any number of parameters. -/
 theorem C01_read_record_partial {F} (env : Env F) (strict : Bool) (hcfg : env.lex.criSkipsComments = true)
@@ -876,8 +884,9 @@ def RecCovered {F} (env : Env F) (rg : Rec F × List Byte) : Prop :=
     ∀ q ∈ rg.1.ps, Covered env q
 
 /-- **read (render p ℓ) = p at file level** (`_partial`, see `Covered` for the parameter kinds and `RecCovered` for the
-    records; not covered: aggregates of NUMBER, of aggregates and of selects, selects, subtype/supertype
-    records in external mapping, entities without attributes, user-defined entities, scopes).  For every dictionary,
+    records; not covered: redeclared attributes, selects whose member is a select or an aggregate, subtype/supertype
+    records in external mapping, entities without attributes, user-defined entities, scopes, record ids above INT_MAX,
+    layout between `#` and the id).  For every dictionary,
     every reader configuration in which the comment repairs are present (they are in the source: see the
     `C01_source_*` theorems), either strictness, every number of records with pairwise different ids, every layout
     between any two tokens of the section, forward and backward references alike (the lookup is the manager pass 1
@@ -1027,8 +1036,10 @@ theorem renderRecs_write {F} (env : Env F) (cfg : RWCfg) (hsa : cfg.stringNodeAp
     rfl
 
 /-- **read ∘ write and write ∘ read ∘ write at file level** (`_partial`: instances of `StorableInst` — internal mapping,
-    the value kinds of `Storable`; REAL/NUMBER values, enumeration items, aggregates, selects and externally mapped
-    instances as they sit in memory are not covered by this theorem, see the notes).  For every dictionary, every
+    the value kinds of `Storable`: unset, derived, INTEGER, REAL / NUMBER where `%.15G` reads back (`RealStable`), STRING,
+    ENUMERATION / BOOLEAN / LOGICAL, BINARY, references, typed selects and select references, aggregates of the scalar
+    kinds; redeclared attributes, aggregates of aggregates / of selects and externally mapped instances as they sit in
+    memory are not covered by this theorem, see the notes).  For every dictionary, every
     configuration with the comment repairs, either strictness, every manager whose instances have pairwise different
     ids and refer only to instances it holds: the data section `STEPfile::WriteData` emits (followed by the end
     keyword) is read back by the two passes with severity NULL to exactly the instances that were written — every
@@ -1099,6 +1110,128 @@ theorem C01_file_write_read_partial {F} (ops : FloatOps F) (lex : LexCfg) (cfg :
   simp only [Function.comp_def, this]
 
 /-! ### the comment defects and their repair on the minimal inputs (model level; the check replays them on the code) -/
+
+/-! ### the two halves composed, and their hypotheses on a concrete file -/
+
+/-- **the token the writer emits for a stored value denotes that value** (`storable_covered`, exported): for every stored
+    attribute/value pair of the kinds of `Storable`, what `STEPattribute::STEPwrite` writes is a parameter of the kinds of
+    `Covered` whose denotation - by the functions of `Covered`, which are not the reader - is the stored value. -/
+theorem C01_written_token_denotes_value {F} (env : Env F) (cfg : RWCfg) (hsa : cfg.stringNodeAppends = false)
+    (a : AttrD) (v : MVal F) (h : Storable env a v) : Covered env (paramOf env.ops cfg env.dict a v) :=
+  storable_covered env cfg hsa env.dict rfl a v h
+
+/-- **the property, composed** (`_partial`): `read (write (read f)) = read f` and `write (read (write (read f))) =
+    write (read f)` for a data section `f` of covered records (`C01_read_file_partial`: read = denote) whose denoted
+    instances are storable (`StorableInst`: the intersection of the two halves - every kind of `Covered` but REAL / NUMBER
+    values at which `%.15G` does not read back (`RealStable`), aggregates of aggregates and of selects; records with
+    ids below 0 are excluded by the grammar).  Redeclared attributes are in neither half (`redefining = false` in every
+    constructor of `Covered` and `Storable`). -/
+theorem C01_read_write_read_partial {F} (ops : FloatOps F) (lex : LexCfg) (cfg : RWCfg) (d : Dict) (strict : Bool)
+    (hskip : cfg.skipInstanceSkipsComments = true) (hcri : lex.criSkipsComments = true) (hagg : cfg.aggrSkipsComments = true)
+    (hsa : cfg.stringNodeAppends = false)
+    (rs : List (Rec F × List Byte)) (g0 sp gE after : List Byte) (hg0 : Seps g0) (hsp : sp.all isSpace = true) (hgE : Seps gE)
+    (hnd : (rs.map (·.1.id)).Nodup)
+    (hrec : ∀ rg ∈ rs, RecCovered { ops := ops, lex := lex, cfg := cfg, dict := d,
+                                    lookup := Mgr.lookup d ({ insts := rs.map (mkInst d) } : Mgr F) } rg)
+    (hst : ∀ rg ∈ rs, StorableInst { ops := ops, lex := lex, cfg := cfg, dict := d,
+                                     lookup := Mgr.lookup d ({ insts := rs.map finInst } : Mgr F) } (finInst rg)) :
+    ∃ res res2, readDataSection ops lex cfg d strict false
+        (g0 ++ renderRecs rs (endsec sp (gE ++ (endIso ++ 59 :: after)))) = .ok res ∧
+      res.mgr.insts = rs.map finInst ∧ res.sev = .null ∧
+      readDataSection ops lex cfg d strict false
+        (10 :: (res.mgr.insts.flatMap (writeInst ops cfg d) ++ (stringToBytes "ENDSEC;\n" ++ (endIso ++ [59, 10])))) = .ok res2 ∧
+      res2.sev = .null ∧ res2.mgr.insts = res.mgr.insts ∧
+      res2.mgr.insts.flatMap (writeInst ops cfg d) = res.mgr.insts.flatMap (writeInst ops cfg d) := by
+  obtain ⟨res, hr, hinsts, hsev, _⟩ := C01_read_file_partial ops lex cfg d strict hskip hcri hagg rs g0 sp gE after hg0 hsp hgE hnd hrec
+  have hm : res.mgr = ({ insts := rs.map finInst } : Mgr F) := by
+    cases hmg : res.mgr with
+    | mk insts => rw [hmg] at hinsts; simp only at hinsts; rw [hinsts]
+  have hnd2 : (res.mgr.insts.map (·.id)).Nodup := by
+    rw [hinsts, List.map_map]
+    exact hnd
+  obtain ⟨res2, hr2, hsev2, _, hin2, hw2⟩ := C01_file_write_read_partial ops lex cfg d strict hskip hcri hagg hsa res.mgr hnd2
+    (by
+      intro i hi
+      rw [hinsts] at hi
+      obtain ⟨rg, hrg, rfl⟩ := List.mem_map.mp hi
+      rw [hm]
+      exact hst rg hrg)
+  refine ⟨res, res2, hr, hinsts, hsev, hr2, hsev2, ?_, hw2⟩
+  rw [hin2, hinsts, List.map_map]
+  apply List.map_congr_left
+  intro rg _
+  rfl
+
+
+/-! #### the hypotheses of the file-level theorems are satisfiable: `#2=B(#1,$);` `#1=A(5);` (a forward reference) -/
+def wAttrI : AttrD := { name := "i", ty := .one .integer, optional := false }
+def wAttrR : AttrD := { name := "r", ty := .one (.entity "A"), optional := false }
+def wAttrS : AttrD := { name := "s", ty := .one .string, optional := true }
+def wDict : Dict :=
+  { entities := [{ name := "A", attrs := [wAttrI], ancestors := ["A"] }, { name := "B", attrs := [wAttrR, wAttrS], ancestors := ["B"] }],
+    selects := [], complexSets := [] }
+def wRecB : Rec Nat × List Byte :=
+  ({ ds := [50], s1 := [], s2 := [], n0 := 66, ns := [], s3 := [],
+     ps := [{ a := wAttrR, v := .one (.atom (.ref ((digitsVal [49] 0 : Nat) : Int))), tok := 35 :: [49], before := [], after := [] },
+            { a := wAttrS, v := nullOf wAttrS, tok := [36], before := [], after := [] }], s4 := [] }, [10])
+def wRecA : Rec Nat × List Byte :=
+  ({ ds := [49], s1 := [], s2 := [], n0 := 65, ns := [], s3 := [],
+     ps := [{ a := wAttrI, v := .one (.atom (.int (denoteInteger [53]))), tok := [53], before := [], after := [] }], s4 := [] }, [10])
+def wRecs : List (Rec Nat × List Byte) := [wRecB, wRecA]
+def wEnv (m : Mgr Nat) : Env Nat :=
+  { ops := dblOps, lex := Generated.rwLexCfg, cfg := Generated.rwCfg, dict := wDict, lookup := Mgr.lookup wDict m }
+
+/-- the records of the witness file are `RecCovered` (with the lookup pass 1 builds from all of them) and their denoted
+    instances are `StorableInst`: `C01_read_file_partial`, `C01_file_write_read_partial` and `C01_read_write_read_partial`
+    all apply to `#2=B(#1,$);⏎#1=A(5);⏎` -/
+theorem C01_file_hypotheses_witness :
+    (wRecs.map (·.1.id)).Nodup ∧
+    (∀ rg ∈ wRecs, RecCovered (wEnv { insts := wRecs.map (mkInst wDict) }) rg) ∧
+    (∀ rg ∈ wRecs, StorableInst (wEnv { insts := wRecs.map finInst }) (finInst rg)) := by
+  have sepsNil : Seps ([] : List Byte) := Seps.blanks [] (by decide)
+  have sepsNl : Seps ([10] : List Byte) := Seps.blanks [10] (by decide)
+  refine ⟨by decide, ?_, ?_⟩
+  · intro rg hrg
+    simp only [wRecs, List.mem_cons, List.mem_singleton, List.not_mem_nil, or_false] at hrg
+    rcases hrg with rfl | rfl
+    · refine ⟨⟨by decide, by decide, by decide, sepsNil, sepsNil, sepsNil, sepsNil, by decide, by decide, by decide⟩, sepsNl,
+        { name := "B", attrs := [wAttrR, wAttrS], ancestors := ["B"] }, by decide, rfl, rfl, ?_⟩
+      intro q hq
+      simp only [wRecB, List.mem_cons, List.mem_singleton, List.not_mem_nil, or_false] at hq
+      rcases hq with rfl | rfl
+      · exact Covered.ref wAttrR "A" rfl rfl rfl [49] (by decide) (by decide) (by decide) (by decide) [] [] sepsNil sepsNil
+      · exact Covered.dollar wAttrS rfl rfl rfl [] [] sepsNil sepsNil
+    · refine ⟨⟨by decide, by decide, by decide, sepsNil, sepsNil, sepsNil, sepsNil, by decide, by decide, by decide⟩, sepsNl,
+        { name := "A", attrs := [wAttrI], ancestors := ["A"] }, by decide, rfl, rfl, ?_⟩
+      intro q hq
+      simp only [wRecA, List.mem_cons, List.mem_singleton, List.not_mem_nil, or_false] at hq
+      subst hq
+      exact Covered.integer wAttrI rfl rfl rfl [53] (by decide) (by decide) (by decide) [] [] sepsNil sepsNil
+  · intro rg hrg
+    simp only [wRecs, List.mem_cons, List.mem_singleton, List.not_mem_nil, or_false] at hrg
+    rcases hrg with rfl | rfl
+    · refine ⟨by decide, by decide, rfl, { name := "B", vals := wRecB.1.ps.map (·.v) },
+        { name := "B", attrs := [wAttrR, wAttrS], ancestors := ["B"] }, rfl, by decide, rfl, ⟨66, [], by decide, by decide, by decide, by decide⟩, ?_⟩
+      exact StorableRec.cons wAttrR _ [wAttrS] [nullOf wAttrS]
+        (Storable.ref wAttrR "A" rfl rfl rfl _ (by decide) (by decide) (by decide))
+        (StorableRec.one wAttrS _ (Storable.null wAttrS rfl rfl rfl))
+    · refine ⟨by decide, by decide, rfl, { name := "A", vals := wRecA.1.ps.map (·.v) },
+        { name := "A", attrs := [wAttrI], ancestors := ["A"] }, rfl, by decide, rfl, ⟨65, [], by decide, by decide, by decide, by decide⟩, ?_⟩
+      exact StorableRec.one wAttrI _ (Storable.int wAttrI rfl rfl rfl _ (by decide) (by decide))
+
+/-- … and the composed theorem instantiated on it: the file is read, written, read again to the same two instances -/
+theorem C01_read_write_read_witness :
+    ∃ res res2, readDataSection dblOps Generated.rwLexCfg Generated.rwCfg wDict false false
+        ([10] ++ renderRecs wRecs (endsec [] ([10] ++ (endIso ++ 59 :: [10])))) = .ok res ∧
+      res.mgr.insts = wRecs.map finInst ∧ res.sev = .null ∧
+      readDataSection dblOps Generated.rwLexCfg Generated.rwCfg wDict false false
+        (10 :: (res.mgr.insts.flatMap (writeInst dblOps Generated.rwCfg wDict) ++ (stringToBytes "ENDSEC;\n" ++ (endIso ++ [59, 10])))) = .ok res2 ∧
+      res2.sev = .null ∧ res2.mgr.insts = res.mgr.insts ∧
+      res2.mgr.insts.flatMap (writeInst dblOps Generated.rwCfg wDict) = res.mgr.insts.flatMap (writeInst dblOps Generated.rwCfg wDict) := by
+  obtain ⟨hnd, hrec, hst⟩ := C01_file_hypotheses_witness
+  exact C01_read_write_read_partial dblOps Generated.rwLexCfg Generated.rwCfg wDict false (by decide) (by decide) (by decide)
+    (by decide) wRecs [10] [] [10] [10] (Seps.blanks _ (by decide)) (by decide) (Seps.blanks _ (by decide)) hnd hrec hst
+
 
 def exDict : Dict :=
   { entities := [{ name := "A", attrs := [{ name := "i", ty := .one .integer, optional := false },
